@@ -89,7 +89,8 @@ def _factors(problem, et, tier):
         }
     timo, dim = BEAM[problem]
     # "negx0": the member lies ON the x axis and points towards -x (the mesh of such a member is embedded in one dimension)
-    maps = {1: ["identity", "generic", "negx0"], 2: ["identity", "generic", "alongy", "reflection", "negx0"],
+    # "negx_off": a 1D structure parallel to x, drawn towards -x, NOT on the x axis (y = 1)
+    maps = {1: ["identity", "generic", "negx0", "negx_off"], 2: ["identity", "generic", "alongy", "reflection", "negx0"],
             3: ["identity", "generic", "alongy", "alongz", "reflection", "negx0"]}[dim]
     F = {
         "mesh": _templates(et, 1, tier, beam=True),
@@ -562,6 +563,8 @@ def _beam_map(name, dim):
     off[dim:] = 0.0
     if name == "identity":
         return np.eye(3), off
+    if name == "negx_off":
+        return np.diag([-1.0, -1.0, 1.0]), np.array([0.2, 1.0, 0.0])
     if name == "negx0":
         return np.diag([-1.0, -1.0, 1.0]), np.array([0.2, 0.0, 0.0])  # exact: sin(pi) would leave y ~ 1e-16 and a mesh "in 2D"
     if name == "reflection":
